@@ -19,6 +19,22 @@ type Check struct {
 	Replay func(doc json.RawMessage) []string
 }
 
+// Assumptions written into every evidence file (what the checks trust).
+var Assumptions = map[string][]string{
+	"*": {
+		"the library is executed for real; package sync, sync/atomic, goroutine creation and map iteration order are replaced mechanically (cmd/instr) by scheduler-visible shims; C03 checks on every run that a sample of histories behaves identically on the uninstrumented build",
+		"the file system is the in-memory simulated disk (engine/simdisk) reached through the library's own vfs.File interface and the VerifOpen hook (a copy of Open without the osfs.Open step); C18 alone uses the real Open on the real file system",
+		"page contents come from a 3-symbol alphabet per page half with self-identifying stamps; event contents are a function of event number and offset",
+	},
+	"C01": {"page-granular persistence except the 84-byte header (torn at every byte); a write is durable once a later Sync completed; SyncNone excluded"},
+	"C06": {"as C01; header tears at 13 offsets per pending header write"},
+	"C02": {"sequentially consistent interleavings at the granularity of synchronisation operations, simulated I/O calls and harness yield points between API calls"},
+	"C09": {"as C02; data races are detected by the Go race detector inside the enumerated schedules with scheduler hand-offs hidden from it"},
+	"C13": {"as C09"},
+	"C08": {"failures are injected at the vfs boundary: error before effect, short write then error, failing sync/truncate/size/mmap/munmap; reads are not failed"},
+	"C16": {"random multi-byte damage is replaced by complete structured families (all single-bit flips, byte-prefix tears, fills, field substitutions)"},
+}
+
 // Checks is the registry.
 var Checks = map[string]*Check{}
 
